@@ -19,7 +19,9 @@ EXPLANATION = (
     "equals the HAP table; (G3) after every yield of the three pairing generators, handle_state_step(reply, M(k+1)) "
     "is passed before the reply is read and before the next yield/return; (G4) add/remove pairing on IP and BLE "
     "reach a normal exit only through the state test and the error test, whose failing outcomes can only raise "
-    "library errors. Quantifier covered: all CFG paths / all exits / all codes 0x00-0xff - not sampled inputs."
+    "library errors; (G5) the filter through which the IP and CoAP transports decode a reply cannot hide the State or "
+    "Error item: every list of expected items yielded by the generators names both, and the decoder skips an item outside "
+    "the list instead of ending the parse (leaving the loop on that outcome only under a test on the remaining length). Quantifier covered: all CFG paths / all exits / all codes 0x00-0xff - not sampled inputs."
 )
 TRUSTED = ["TLV byte decoding itself (C15)"]
 
@@ -222,6 +224,115 @@ def run(ctx: Context) -> None:
         for q in PAIRING_MGMT:
             n += _pairing_mgmt(ctx, q)
         ck.require_min("C04.G4", "pairing-management functions", n, 4)
+
+    # ------------------------------------------------------------------ G5
+    if ck.rule("C04.G5", "the reply filter cannot hide the state or the error item"):
+        _reply_filter(ctx)
+
+
+# ---------------------------------------------------------------------- G5
+DECODER = "aiohomekit.protocol.tlv.TLV.decode_bytearray"
+
+
+def _reply_filter(ctx: Context) -> None:
+    """The transports decode a reply with the list of item types the generator *expects* (yielded next to the request).
+    Whatever the reply carries, its State and Error items must survive that filter, otherwise handle_state_step never
+    sees them: (a) every yielded list names State and Error; (b) an item outside the list does not end the parse -
+    the items behind it (an Error, a State) are still decoded."""
+    ck = ctx.ck
+    T = ctx.terms
+    n_lists = 0
+    for q, steps in GENERATORS:
+        f = ctx.func(q)
+        cfg = ctx.cfg(q)
+        for n in cfg.nodes:
+            for e in n.exprs:
+                if e is None:
+                    continue
+                for y in walk_expr(e):
+                    if not isinstance(y, ast.Yield) or y.value is None:
+                        continue
+                    dn, tv = ctx.deref(cfg, n, y.value)
+                    if not (isinstance(tv, ast.Tuple) and len(tv.elts) == 2):
+                        continue  # a generator that yields no filter is decoded unfiltered
+                    ln, lv = ctx.deref(cfg, dn, tv.elts[1])
+                    if isinstance(lv, ast.Constant) and lv.value is None:
+                        continue
+                    ordinal = T.yield_ordinal(f, y)
+                    if not isinstance(lv, (ast.List, ast.Tuple, ast.Set)):
+                        ck.unknown("C04.G5", f"{f.name}: the filter yielded at yield #{ordinal} is not a literal list", ctx.loc(f, n))
+                        continue
+                    vals = set()
+                    for el in lv.elts:
+                        try:
+                            vals.add(ctx.const(f, el))
+                        except Exception:  # noqa: BLE001
+                            vals.add(None)
+                    n_lists += 1
+                    missing = [nm for nm, v in (("State", TLV_STATE), ("Error", TLV_ERROR)) if v not in vals]
+                    ck.check(
+                        "C04.G5",
+                        not missing,
+                        f"{f.name}: the reply filter of yield #{ordinal} names State and Error",
+                        f"{ctx.fkey(f)}:yield{ordinal}:filter",
+                        f"{f.name}: the list of expected reply items yielded at yield #{ordinal} lacks {' and '.join(missing)}: the IP and CoAP "
+                        f"transports decode the reply through this filter, so an accessory's {' / '.join(missing)} item never reaches "
+                        "handle_state_step - an error reply fails with the wrong exception class (or not at all)",
+                        ctx.loc(f, ln),
+                    )
+    ck.require_min("C04.G5", "reply filters yielded by the pairing generators", n_lists, 5)
+    # (b) the decoder
+    f = ctx.func(DECODER)
+    cfg = ctx.cfg(DECODER)
+    if len(f.pos_params) < 2:
+        ck.holds("C04.G5", "decode_bytearray takes no filter any more: every reply is decoded completely", f.loc())
+        return
+    flt = f.pos_params[1]
+    tests = []
+    for n in cfg.nodes:
+        if n.kind != "test":
+            continue
+        m = is_membership(n.exprs[0])
+        if m is not None and isinstance(m[1], ast.Name) and m[1].id == flt:
+            tests.append((n, "F" if m[2] else "T"))  # the outcome `item type not in the filter`
+    if not tests:
+        uses = [x for n in cfg.nodes for e in n.exprs if e is not None for x in walk_expr(e) if isinstance(x, ast.Name) and x.id == flt]
+        if uses:
+            ck.unknown("C04.G5", f"decode_bytearray uses its filter `{flt}` in a way that is not a membership test", f.loc())
+        else:
+            ck.holds("C04.G5", "decode_bytearray ignores its filter: every reply is decoded completely", f.loc())
+        return
+    for n, lab in tests:
+        loops = [fr[1] for fr in n.frames if fr[0] == "loop" and fr[2] == "body"]
+        heads = [h.id for h in cfg.nodes if h.kind in ("loop_head", "for") and loops and h.ast is loops[-1]]
+        if not heads:
+            ck.unknown("C04.G5", "decode_bytearray: the filter test is not inside the item loop", ctx.loc(f, n))
+            continue
+        # leaving the loop on the unwanted outcome is acceptable only under a test on what is left of the buffer
+        # (a truncated unwanted item has nothing behind it); whether that arithmetic is right is C15's business
+        length_edges = []
+        for tn in cfg.nodes:
+            if tn.kind == "test" and any(isinstance(x, ast.Call) and isinstance(x.func, ast.Name) and x.func.id == "len" for x in walk_expr(tn.exprs[0])):
+                length_edges += cfg.out_edges(tn, ("T", "F"))
+        bad = None
+        back = False
+        for e in ctx.edges(cfg, n, lab):
+            p = cfg.find_path(e[1], {cfg.exit.id}, avoid_nodes=heads, avoid_edges=length_edges)
+            if p is not None:
+                bad = p
+            back |= any(cfg.find_path(e[1], {h}) is not None for h in heads)
+        if bad is None and not back:
+            bad = []
+        ck.check(
+            "C04.G5",
+            bad is None,
+            "decode_bytearray: an item outside the filter is skipped, the items behind it are still decoded",
+            f"{ctx.fkey(f)}:filter-ends-parse",
+            "TLV.decode_bytearray stops decoding at the first item whose type is not in the filter: a State or Error item "
+            "behind it is dropped, so `[<other item>, State, Error]` decodes to nothing and the step completes as success",
+            ctx.loc(f, n),
+            cfg.render_path(bad) if bad else None,
+        )
 
 
 # ---------------------------------------------------------------------- K1
@@ -588,6 +699,27 @@ TWIN_FILES = [
 ]
 _PF = "aiohomekit/protocol/__init__.py"
 VARIANTS = [
+    {
+        "name": "pair-verify M2 filter without Error (the pinned defect)",
+        "file": _PF,
+        "old": "    step2_expectations = [\n        TLV.kTLVType_State,\n        TLV.kTLVType_Error,\n        TLV.kTLVType_PublicKey,\n        TLV.kTLVType_EncryptedData,\n    ]",
+        "new": "    step2_expectations = [\n        TLV.kTLVType_State,\n        TLV.kTLVType_PublicKey,\n        TLV.kTLVType_EncryptedData,\n    ]",
+        "expect": "C04.G5",
+    },
+    {
+        "name": "pair-setup M6 filter without State",
+        "file": _PF,
+        "old": "    step6_expectations = [\n        TLV.kTLVType_State,\n        TLV.kTLVType_Error,",
+        "new": "    step6_expectations = [\n        TLV.kTLVType_Error,",
+        "expect": "C04.G5",
+    },
+    {
+        "name": "decoder stops at the first unexpected item (the pinned defect)",
+        "file": "aiohomekit/protocol/tlv.py",
+        "old": "                if len(tail) == 0 or len(tail) - 1 < tail[0]:\n                    break\n                tail = tail[1 + tail[0] :]\n                continue\n",
+        "new": "                break\n",
+        "expect": "C04.G5",
+    },
     {
         "name": "missing-state shortcut before the error test (the pinned defect)",
         "file": _PF,
